@@ -97,6 +97,18 @@ def oracle_eval(o, rc, out, err):
         except Exception as e:
             return True, "target-language parser rejects the document %r: %s" % (out[:80], e)
         return got != o["expected"], "got %r expected %r" % (got, o["expected"])
+    if kind == "json_self_check":
+        # the program computes a list of records; `field` of every record must be true
+        if rc not in (0, 1, 2) or b"panicked at" in err:
+            return True, "crash exit=%d" % rc
+        if rc != 0:
+            return True, "exit=%d stderr=%s" % (rc, err.decode("utf-8", "replace")[:300])
+        try:
+            recs = json.loads(out.decode("utf-8"))
+        except Exception as e:
+            return True, "stdout is not JSON: %r" % out[:80]
+        bad = [r for r in recs if not r.get(o.get("field", "ok"))]
+        return bool(bad), "%d of %d records disagree; first: %s" % (len(bad), len(recs), json.dumps(bad[0])[:300] if bad else "-")
     if kind == "error_expected":
         bad = rc == 0
         return bad, "exit=%d stdout=%r" % (rc, out[:80])
@@ -106,6 +118,14 @@ def oracle_eval(o, rc, out, err):
 def _run_case(binary, case):
     src = case["source"].encode("latin-1") if case.get("source_latin1") else case["source"].encode("utf-8")
     rc, out, err = run_source(binary, src, case.get("args", ()))
+    if case["oracle"]["oracle"] == "same_outcome_as":
+        # the property relates two programs: both must give the same exit status and stdout
+        rc2, out2, err2 = run_source(binary, case["oracle"]["other_source"].encode("utf-8"), case.get("args", ()))
+        crash = any(r not in (0, 1, 2) for r in (rc, rc2)) or b"panicked at" in err + err2
+        violated = crash or (rc, out) != (rc2, out2)
+        detail = "`%s` -> exit %d %r ; `%s` -> exit %d %r" % (case["source"], rc, out[:60], case["oracle"]["other_source"], rc2, out2[:60])
+        return {"exit": rc, "stdout": out.decode("utf-8", "replace")[:200], "stderr": err.decode("utf-8", "replace")[:300],
+                "violated": violated, "detail": detail}
     violated, detail = oracle_eval(case["oracle"], rc, out, err)
     return {"exit": rc, "stdout": out.decode("utf-8", "replace")[:400], "stderr": err.decode("utf-8", "replace")[:600],
             "violated": violated, "detail": detail}
@@ -288,3 +308,52 @@ def _slice_range(vals, v):
         else:
             cases.append({"source": src, "oracle": {"oracle": "no_crash"}})
     return cases
+
+
+# ---- parser precedence: probes, not decoded counterexamples -----------------------------------
+_BINOPS = [("*", 5), ("/", 5), ("%", 5), ("+", 6), ("-", 6), ("<<", 7), (">>", 7), ("<", 8), ("<=", 8), (">", 8), (">=", 8), ("in", 8),
+           ("==", 9), ("!=", 9), ("&", 10), ("^", 11), ("|", 12), ("&&", 13), ("||", 14)]
+_OPERANDS = [("7", "3", "2"), ("true", "false", "true"), ("1", "2", "true"), ('"a"', "{a: 1}", "{b: 2}"), ("2", "1", "0"), ("false", "1", "1")]
+
+
+@adapter("parser_prec")
+def _parser_prec(vals, v):
+    """`a op1 b op2 c` must mean the same as its parenthesised form per the Jsonnet precedence table
+    (the property's own wording).  All 19 x 19 operator pairs x a few operand triples; plus unary."""
+    cases = []
+    for (o1, l1) in _BINOPS:
+        for (o2, l2) in _BINOPS:
+            for (a, b, c) in _OPERANDS:
+                plain = "%s %s %s %s %s" % (a, o1, b, o2, c)
+                par = "(%s %s %s) %s %s" % (a, o1, b, o2, c) if l1 <= l2 else "%s %s (%s %s %s)" % (a, o1, b, o2, c)
+                cases.append({"source": plain, "oracle": {"oracle": "same_outcome_as", "other_source": par}})
+    for u in ("-", "+", "~", "!"):
+        for (o, _) in _BINOPS:
+            for (a, b) in (("5", "3"), ("true", "false"), ("1", "true")):
+                cases.append({"source": "%s%s %s %s" % (u, a, o, b), "oracle": {"oracle": "same_outcome_as", "other_source": "(%s%s) %s %s" % (u, a, o, b)}})
+                cases.append({"source": "%s %s %s%s" % (a, o, u, b), "oracle": {"oracle": "same_outcome_as", "other_source": "%s %s (%s%s)" % (a, o, u, b)}})
+    cases.append({"source": '{ x: "a" in super in self }', "oracle": {"oracle": "same_outcome_as", "other_source": '{ x: ("a" in super) in self }'}})
+    cases.append({"source": '{ x: "a" in super < 1 }', "oracle": {"oracle": "same_outcome_as", "other_source": '{ x: ("a" in super) < 1 }'}})
+    cases.append({"source": '{ x: "a" in super == false }', "oracle": {"oracle": "same_outcome_as", "other_source": '{ x: ("a" in super) == false }'}})
+    return cases
+
+
+# ---- object layers: one self-checking program over every layering of <= 4 steps -----------------
+@adapter("objlayers")
+def _objlayers(vals, v):
+    import itertools
+    steps = {"d": "%s + {a: 1}", "h": "%s + {a:: 1}", "v": "%s + {a::: 1}", "e": "%s + {}", "r": 'std.objectRemoveKey(%s, "a")'}
+    recs = []
+    for n in range(1, 5):
+        for seq in itertools.product("dhver", repeat=n):
+            e = "{b: 0}"
+            for st in seq:
+                e = "(" + steps[st] % e + ")"
+            recs.append('local o = %s; { seq: "%s", has: std.objectHas(o, "a"), hasAll: std.objectHasAll(o, "a"), inop: "a" in o, '
+                        'fields: std.member(std.objectFields(o), "a"), fieldsAll: std.member(std.objectFieldsAll(o), "a"), '
+                        'len: std.length(o), nfields: std.length(std.objectFields(o)), manifested: std.member(std.objectFields(std.parseJson(std.manifestJsonMinified(o))), "a"), '
+                        'b_ok: std.objectHas(o, "b") && o.b == 0, '
+                        'ok: self.has == self.fields && self.has == self.manifested && self.hasAll == self.fieldsAll && self.hasAll == self.inop && self.len == self.nfields && self.b_ok && (!self.has || self.hasAll) }'
+                        % (e, "".join(seq)))
+    src = "[\n" + ",\n".join(recs) + "\n]"
+    return [{"source": src, "oracle": {"oracle": "json_self_check", "field": "ok"}}]
